@@ -264,10 +264,12 @@ fn case1<T: Elem>(case: u64, args: &Args, ev: &mut Ev) {
     let mut rng = Rng::derive(args.seed, "C14", &[case]);
     let spline = case % 3 == 1;
     let extrapolate = rng.chance(0.5);
+    // every tenth case has up to five trailing data axes: results with seven and more axes
+    let lane_rank = if case % 10 == 9 { 5 } else { 3 };
     let (spec, _) = if spline {
-        gen_spline_case::<T>(&mut rng, &SplineOpts { max_n: 8, max_lane_rank: 3, extrapolate, ..Default::default() })
+        gen_spline_case::<T>(&mut rng, &SplineOpts { max_n: 8, max_lane_rank: lane_rank, extrapolate, ..Default::default() })
     } else {
-        gen_linear_case::<T>(&mut rng, &LinearOpts { max_n: 8, max_lane_rank: 3, allow_cluster: false, extrapolate, ..Default::default() })
+        gen_linear_case::<T>(&mut rng, &LinearOpts { max_n: 8, max_lane_rank: lane_rank, allow_cluster: false, extrapolate, ..Default::default() })
     };
     ev.count("extrapolate", if extrapolate { "on" } else { "off" });
     let mut spec = spec;
@@ -371,7 +373,7 @@ fn case1<T: Elem>(case: u64, args: &Args, ev: &mut Ev) {
 fn case2<T: Elem>(case: u64, args: &Args, ev: &mut Ev) {
     let mut rng = Rng::derive(args.seed, "C14", &[case]);
     let extrapolate = rng.chance(0.5);
-    let (spec, _) = gen_grid_case::<T>(&mut rng, &GridOpts { max_nx: 5, max_ny: 4, max_lane_rank: 2, allow_cluster: false, extrapolate, ..Default::default() });
+    let (spec, _) = gen_grid_case::<T>(&mut rng, &GridOpts { max_nx: 5, max_ny: 4, max_lane_rank: if case % 10 == 9 { 4 } else { 2 }, allow_cluster: false, extrapolate, ..Default::default() });
     ev.count("extrapolate", if extrapolate { "on" } else { "off" });
     let x = spec.axis_x();
     let y = spec.axis_y();
